@@ -12,8 +12,8 @@ PARALLEL = True
 # the typed-key stream (True / 1.0 elements after an equal int) exercises the lru_cache of _join_elements
 TYPED_KEY_STREAM = True
 # URL registrations whose scheme urllib does not treat as relative-capable (s3://...), and sub-paths starting with '/':
-# urljoin drops the registered URL (candidate findings C17-static-external-*); generated only when this is True
-EXTERNAL_ODD_STREAM = False
+# urljoin dropped the registered URL (findings C17-static-external-*)
+EXTERNAL_ODD_STREAM = True
 
 RULE = ('8 helpers (route/resource/static/current_route x url/path) on generated routes (literals/placeholders/star), '
         'elements, query (str / pair list / mapping; None, sequences, bytes, ints), anchor, scheme/host/port/app_url '
@@ -487,6 +487,18 @@ def _query_ok(q):
     return True
 
 
+def _static_hit(case):
+    for r in _static_routes(case):
+        if case['path'].startswith(r[0]):
+            return r, case['path'][len(r[0]):]
+    return None, None
+
+
+def _ext_abs_sub(case):
+    r, sub = _static_hit(case)
+    return r is not None and r[3] is not None and sub.startswith('/')
+
+
 _EXT_RE = re.compile(r'^(?:[a-z][a-z0-9+.-]*:)?//[a-z0-9.-]+(?::[0-9]+)?(?:/[A-Za-z0-9._~-]+)*/?$')
 
 
@@ -498,7 +510,8 @@ def _static_name_ok(name):
     except ValueError:
         return False
     if p.netloc or p.scheme:
-        return bool(_EXT_RE.match(name))
+        from urllib.parse import uses_relative
+        return bool(_EXT_RE.match(name)) and (EXTERNAL_ODD_STREAM or p.scheme in uses_relative)
     return not _external(name)
 
 
@@ -552,7 +565,8 @@ def valid(case):
             return bool(case['statics']) and all(isinstance(a, str) and isinstance(b, str) and a and ':' in b and b[0] != '/'
                                                  and _no_surrogate(a + b) and _static_name_ok(a) for a, b in case['statics']) \
                 and len({a for a, b in case['statics']}) == len(case['statics']) \
-                and isinstance(case['path'], str) and ':' in case['path'] and _no_surrogate(case['path']) and _kw_ok(case['kw'])
+                and isinstance(case['path'], str) and ':' in case['path'] and _no_surrogate(case['path']) and _kw_ok(case['kw']) \
+                and (EXTERNAL_ODD_STREAM or not _ext_abs_sub(case))
         if h == 'current':
             return _kw_ok(case['matchdict']) and (case['matched'] is None or isinstance(case['matched'], str)) \
                 and (case['cur_route_name'] is None or isinstance(case['cur_route_name'], str)) \
@@ -1111,6 +1125,16 @@ def classify(case, obs, spec):
             i = u[1].index(q)
             if p[1] == script + u[1][i + len(q):]:
                 return 'C17-resource-path-raw-script-name' if case['helper'] == 'resource' else 'C17-path-raw-script-name'
+    if tag == 'url' and case['helper'] == 'static' and why and why.startswith('the result does not start with the registered URL'):
+        from urllib.parse import urlparse, uses_relative
+        r, sub = _static_hit(case)
+        if r is not None and r[3] is not None and u[0] == 0:
+            from urllib.parse import quote
+            q = quote(sub)
+            if urlparse(r[3]).scheme not in uses_relative and not sub.startswith('/') and u[1].startswith(q):
+                return 'C17-static-external-unknown-scheme'      # urljoin returned the reference alone
+            if sub.startswith('/') and urlparse(r[3]).scheme in uses_relative and ':' not in q:
+                return 'C17-static-external-subpath-escapes-base'
     if tag == 'url' and case.get('warm') and why and 'elements decode' in why:
         # equal-as-key elements answered from the lru_cache of _join_elements
         def key(v):
